@@ -32,7 +32,11 @@ var srcUnderlay = &net.UDPAddr{IP: net.IP{10, 0, 200, 1}, Port: 40123}
 
 // Run sends raw through the fast path of the real dataplane as if it had
 // arrived over ing.
-func (rt *Router) Run(raw []byte, ing Ingress) (Obs, error) {
+func (rt *Router) Run(raw []byte, ing Ingress) (Obs, error) { return rt.RunOn(nil, raw, ing) }
+
+// RunOn is Run on a processor that is REUSED across packets (router.VerifNewProcessor, the way
+// runProcessor keeps one scionPacketProcessor per queue); proc == nil: a fresh processor.
+func (rt *Router) RunOn(proc *router.VerifProcessor, raw []byte, ing Ingress) (Obs, error) {
 	o := Obs{InLen: len(raw)}
 	var src *net.UDPAddr
 	if ing.Kind == IngInt {
@@ -40,7 +44,13 @@ func (rt *Router) Run(raw []byte, ing Ingress) (Obs, error) {
 	}
 	rt.DP.ClearRecords()
 	o.NowNs = time.Now().UnixNano()
-	res, err := rt.DP.VerifProcess(raw, ing.Link(), src)
+	var res router.VerifResult
+	var err error
+	if proc != nil {
+		res, err = proc.Process(raw, ing.Link(), src)
+	} else {
+		res, err = rt.DP.VerifProcess(raw, ing.Link(), src)
+	}
 	if err != nil {
 		return o, err
 	}
